@@ -879,3 +879,30 @@ TARGETS.append(
                     '(mkCirc {_f} {_i} (fst {_b}) (snd {_b}))', 'circ')],
          stmt_patterns=[('fragments.append(_x)', {'_x': 'frag'}, 'fragments', '({cur} ++ [{_x}])'),
                         ('intron.append(_x)', {'_x': 'Z'}, 'intron', '({cur} ++ [{_x}])')]))
+
+# ---------------------------------------------------------------------------------------------- C16 parseRMATS
+# (22) parser/RMATSParser/RIRecord.py RIRecord.convert_to_variant_records: the exon scan of ONE transcript (slice
+#      `it = iter(model.exon)` .. `while exon:`; iterator protocol: next(it, None))                vs Rmats.ri_scan
+#      Observable: (was the transcript appended to spliced_in_ref?, how often to retained_in_ref).  `model.exon` is the
+#      parameter exons (ascending (start, end)); a SeqFeature is truthy (Bio defines __bool__); int(location.start/end)
+#      are the pair's components.  The `ds < exon_end` test is thereby tied to the source body, not only to the constant
+#      Gen/RmatsConst.ri_end_slack.
+TARGETS.append(
+    dict(out='Py_RIRecord', file='moPepGen/parser/RMATSParser/RIRecord.py', cls='RIRecord', func='convert_to_variant_records',
+         coq_name='py_ri_scan', imports=['Model.Rmats'],
+         args=[('exons', 'list exon'), ('ue', 'Z'), ('ds', 'Z')],
+         types={'exon': 'exon', 'scanres': '(bool * Z)'},
+         params={'anno': (None, 'opaque'), 'genome': (None, 'opaque'), 'min_ijc': (None, 'opaque'), 'min_sjc': (None, 'opaque')},
+         slice=('it = iter(model.exon)', 'while exon:'),
+         slice_pre=['spliced__ = False', 'retained__ = 0'], slice_post=['return result__(spliced__, retained__)'],
+         ret_ty='scanres', res_ty='pyres (bool * Z)', ok='(POk {})', stub='PErr PyValueError',
+         errors={'NoneValue': '(PErr PyTypeError)', 'OutOfFuel': '(PErr PyOutOfFuel)', 'UnboundLocalError': '(PErr PyUnboundLocalError)'},
+         raises=[], fuel=['(S (length exons))'],
+         truthy={'opt exon': '(match {0} with Some _ => true | None => false end)'},
+         patterns=[('model.exon', {}, 'exons', 'list exon'),
+                   ('int(_e.location.start)', {'_e': 'exon'}, '(fst {_e})', 'Z'),
+                   ('int(_e.location.end)', {'_e': 'exon'}, '(snd {_e})', 'Z'),
+                   ('self.upstream_exon_end', {}, 'ue', 'Z'), ('self.downstream_exon_start', {}, 'ds', 'Z'),
+                   ('result__(_s, _n)', {'_s': 'bool', '_n': 'Z'}, '({_s}, {_n})', 'scanres')],
+         stmt_patterns=[('spliced_in_ref.append(tx_id)', {}, 'spliced__', 'true'),
+                        ('retained_in_ref.append(tx_id)', {}, 'retained__', '({cur} + 1)')]))
